@@ -301,9 +301,15 @@ let () =
           let before = if valid && code <> "a" && code <> "d" then Some (foreign_view !xs kk) else None in
           let unpriv = valid && int_of_n (priv_get (xs_priv ops !xs) (n_of_int kk)) = 0 in
           let dir = match sess_of kk with Some ss -> session_dir ops ss | None -> [] in
+          let unpriv_before =
+            List.filter_map (fun ss -> if int_of_n (priv_get (xs_priv ops !xs) ss.s_id) = 0 then Some (int_of_n ss.s_id) else None)
+              (sv_sessions ops (xs_sv ops !xs)) in
           (match ev with
            | Some (e, who) -> xs := xstep ops fixes !xs e; hist := { ev = e; who } :: !hist
            | None -> ());
+          (* unprivileged sessions a kick of this command removed: as if they had never been there *)
+          if valid && code <> "a" && code <> "d" then
+            List.iter (fun x -> if x <> kk && not (alive x) then as_if_never j x !xs) unpriv_before;
           Printf.printf "%d %d %s%s %s\n" k j code (if valid then "" else "!") (state_str !xs);
           (match before with
            | Some b when unpriv && alive kk && foreign_view !xs kk <> b -> Printf.printf "%d ORACLE FAIL model-frame op#%d c%d\n" k j kk
